@@ -1,4 +1,6 @@
 import AtreeProofs.Props.C17Ids
+import AtreeProofs.Batch.ArrayRefsBuild
+import AtreeProofs.BatchRefsSpec
 import AtreeProofs.E2ESpec
 /-
   C17 — large values in a bulk build (audit a1 F9, FX9H).  PROPERTY THEOREMS.
@@ -20,10 +22,6 @@ namespace Atree.C17
 open Atree Gen
 
 variable {T r : Nat}
-
-/-- resolved form of a stored pair -/
-def resolvePair (created : List (SlabID × Elem)) (p : MKey × Elem) : MKey × Elem :=
-  (p.1, E2E.resolve created p.2)
 
 theorem keysDistinct_unique {l : List (MKey × Elem)} (h : KeysDistinct l) {k : MKey} {v v' : Elem}
     (h1 : (k, v) ∈ l) (h2 : (k, v') ∈ l) : v = v' := by
@@ -149,5 +147,117 @@ theorem batch_map_refs_resolve (D : DigestFn (r + 1)) (hT : legalThreshold T = t
       rw [hk', MKey.same_self] at hab
       cases hab
     exact (List.subperm_of_subset hnd hsub).perm_of_length_le (by omega)
+
+/-! ## Arrays -/
+
+theorem resolve_of_reprA {T : Nat} {created : List (SlabID × Elem)} {v e : Elem} (hv : ValueOk v)
+    (h : ReprA T created v e) : E2E.resolve created e = v := by
+  obtain ⟨_, n, hn⟩ := hv
+  rcases h with ⟨_, rfl⟩ | ⟨_, id, rfl, hf⟩
+  · simp [E2E.resolve, hn]
+  · simp [E2E.resolve, hf]
+
+theorem forall2_reprA_resolve {T : Nat} {created : List (SlabID × Elem)} {vs es : List Elem}
+    (hvs : ∀ v ∈ vs, ValueOk v) (h : List.Forall₂ (ReprA T created) vs es) :
+    es.map (E2E.resolve created) = vs := by
+  induction h with
+  | nil => rfl
+  | cons h1 _ ih =>
+    rw [List.map_cons, resolve_of_reprA (hvs _ (by simp)) h1, ih (fun v hv => hvs v (by simp [hv]))]
+
+/-- Large values of a bulk-built ARRAY.  If `NewArrayFromBatchData` succeeds on plain values of
+    any size ≥ 1, started in a context with a sound created-slab table, then
+    * the references of the result are well formed (`ARefsOk`: pairwise different, no slab of the
+      result tree, owner address, index ≥ 1 and ≤ the counter after the call) and every one was
+      allocated during the call;
+    * POSITION BY POSITION (`List.Forall₂`) the element stored for an input value within the
+      inline limit is the value, and the element stored for a value above the limit is
+      `⟨19, .ref id⟩` with `id` resolving to that input value in the created-slab table;
+    * the value sequence the result represents (`E2E.values`: references resolved) IS the input. -/
+theorem batch_array_refs_resolve (T addr ty : Nat) (hT : legalThreshold T = true) (vs : List Elem)
+    (hvs : ∀ v ∈ vs, ValueOk v) (c : Ctx) (hcr : CreatedTableOk addr c)
+    (a : Arr) (c' : Ctx) (h : Arr.fromBatchData T addr ty vs c = .ok (a, c')) :
+    ARefsOk a c'.ctr ∧ (∀ id ∈ a.refIds, c.ctr < id.idx) ∧ CreatedTableOk addr c' ∧
+    List.Forall₂ (ReprA T c'.created) vs a.toList ∧
+    E2E.values (a, c') = vs := by
+  obtain ⟨hF, hrest⟩ := arr_fromBatchData_refs hT addr ty vs hvs c a c' h
+  obtain ⟨hcr', hrepr⟩ := hrest hcr
+  have haddr : a.addr = addr :=
+    (hF.2.2 (ATree.hdr a.d a.root).id (List.mem_append.mpr (Or.inl (hdr_id_mem_slabIds a.d a.root)))).1
+  have hnd := hF.2.1
+  rw [List.nodup_append] at hnd
+  refine ⟨⟨hnd.2.1, ?_, ?_⟩, ?_, hcr', hrepr, ?_⟩
+  · intro id hid hin
+    exact hnd.2.2 id hin id hid rfl
+  · intro id hid
+    have hf := hF.2.2 id (List.mem_append.mpr (Or.inr hid))
+    exact ⟨by rw [haddr]; exact hf.1, by have := hf.2.1; omega, hf.2.2⟩
+  · intro id hid
+    exact (hF.2.2 id (List.mem_append.mpr (Or.inr hid))).2.1
+  · exact forall2_reprA_resolve hvs hrepr
+
+/-! ## Non-vacuity
+
+Maps: the two-level build `idsBuilt` of Props/C17Ids.lean (24 pairs, external collision group, the
+value of key 500 has 300 bytes): it starts from an empty created-slab table; the result holds one
+reference and it resolves to the 300-byte value.
+Arrays: 40 values at threshold 256 from counter 40, the values at positions 3 and 30 have 300
+bytes: two levels, two references. -/
+section NonVacuity
+open MapExample
+
+theorem idsCtx_created : CreatedTableOk cfg2.addr idsCtx := by
+  intro p hp; cases hp
+
+theorem idsBuilt_refs :
+    (match idsBuilt with
+     | .ok (m, c') => decide (m.refIds.map (AList.find? c'.created) = [some ⟨300, .val 500⟩]) &&
+         decide (m.d = 1)
+     | .error _ => false) = true := by
+  decide
+
+example : ∃ (m : OMap 1) (c' : Ctx), idsBuilt = .ok (m, c') ∧ MRefsOk m c'.ctr ∧ m.refIds.length = 1 ∧
+    (m.toList.map (resolvePair c'.created)).Perm idsKvs := by
+  obtain ⟨m, c', h1, _⟩ := batch_map_invI D2 (T := 256) (by decide) cfg2 rfl rfl 0 12345
+    (by decide) idsKvs idsKvs_ok (by decide) (by unfold KeysDistinct; decide) idsCtx
+  obtain ⟨g1, _, _, _, _, g6⟩ := batch_map_refs_resolve D2 (T := 256) (by decide) cfg2 rfl rfl 0 12345 idsKvs idsKvs_ok
+    idsCtx idsCtx_created m c' h1
+  have hb : idsBuilt = .ok (m, c') := h1
+  have hs := idsBuilt_shape
+  rw [hb] at hs
+  simp only [Bool.and_eq_true, decide_eq_true_eq] at hs
+  exact ⟨m, c', hb, g1, hs.1.1.2, g6⟩
+
+def arrVals : List Elem :=
+  (List.range 40).map (fun i => if i = 3 ∨ i = 30 then ({ size := 300, pay := .val i } : Elem) else { size := 20, pay := .val i })
+
+def arrBuilt : BRes (Arr × Ctx) := Arr.fromBatchData 256 7 0 arrVals { ctr := 40, eff := [] }
+
+theorem arrVals_ok : ∀ v ∈ arrVals, ValueOk v := by
+  intro v hv
+  obtain ⟨n, _, rfl⟩ := List.mem_map.mp hv
+  split
+  · exact ⟨(by decide : 1 ≤ 300), _, rfl⟩
+  · exact ⟨(by decide : 1 ≤ 20), _, rfl⟩
+
+theorem arrBuilt_shape :
+    (match arrBuilt with
+     | .ok (a, c') => decide (a.d = 1) && decide (a.refIds.length = 2) && decide (40 < c'.ctr) &&
+         decide (a.refIds.map (AList.find? c'.created) = [some ⟨300, .val 3⟩, some ⟨300, .val 30⟩])
+     | .error _ => false) = true := by
+  decide
+
+example : ∃ (a : Arr) (c' : Ctx), arrBuilt = .ok (a, c') ∧ a.d = 1 ∧ a.refIds.length = 2 ∧ ARefsOk a c'.ctr ∧
+    E2E.values (a, c') = arrVals := by
+  obtain ⟨a, c', h1, _⟩ := batch_array_inv 256 7 0 (by decide) arrVals { ctr := 40, eff := [] } arrVals_ok (by decide)
+  obtain ⟨g1, _, _, _, g5⟩ := batch_array_refs_resolve 256 7 0 (by decide) arrVals arrVals_ok { ctr := 40, eff := [] }
+    (by intro p hp; cases hp) a c' h1
+  have hb : arrBuilt = .ok (a, c') := h1
+  have hs := arrBuilt_shape
+  rw [hb] at hs
+  simp only [Bool.and_eq_true, decide_eq_true_eq] at hs
+  exact ⟨a, c', hb, hs.1.1.1, hs.1.1.2, g1, g5⟩
+
+end NonVacuity
 
 end Atree.C17
